@@ -188,9 +188,14 @@ func c20fSelfTest() error {
 	return nil
 }
 
+// c20fPause is the body of every polling loop (only the test's goroutine polls): mostly a yield, now and then a short sleep.
+var c20fPauses int
+
 func c20fPause() {
 	runtime.Gosched()
-	time.Sleep(20 * time.Microsecond)
+	if c20fPauses++; c20fPauses%48 == 0 {
+		time.Sleep(20 * time.Microsecond)
+	}
 }
 
 // c20fYield gives the goroutines under test a moment. It synchronises nothing (on the code as it is nothing can happen
@@ -1336,7 +1341,9 @@ func TestVerifC20Feed(t *testing.T) {
 		gcs = append(gcs, r.Group(fmt.Sprintf("compose%d", i), c20fCoqHeader, "comp_case", "comp_mismatches"))
 	}
 	nf, nc := 0, 0
+	t0 := time.Now()
 	pool := c20fBuildPool(t, zv.NewRand(r.Seed^0xc20f), 64)
+	tPool := time.Since(t0)
 
 	alone := func(seed uint64) bool {
 		x := c20fRunAlone(r, pool.headers, seed)
@@ -1398,10 +1405,12 @@ func TestVerifC20Feed(t *testing.T) {
 			bad++
 		}
 	}
+	tAlone := time.Since(t0) - tPool
 	bad = 0
 	for i := 0; i < nComp && bad < 3; i++ {
 		if comp(rng.U64()) {
 			bad++
 		}
 	}
+	t.Logf("C20 feed harness: pool %v, feed alone %v, composition %v", tPool, tAlone, time.Since(t0)-tPool-tAlone)
 }
